@@ -337,7 +337,34 @@ def enum_faults(tier):
                            "through": "handler" if nth % 2 else "protocol"}
 
 
+def enum_preconditions(tier):
+    """Every combination of token configuration x presented token x media-type list x media type x delete on/off x
+    size {0, 3, 64, 65 with limit 64} x existing/new target, through the handler and the protocol, on a tree that also
+    holds look-alike siblings of the targets."""
+    spec = {"root": ROOT, "nodes": [{"p": ROOT + "/a.gmi", "t": "file", "c": "text"}, {"p": ROOT + "/a.gmi.tmp", "t": "file", "c": "text"},
+                                    {"p": ROOT + "/.a.gmi.tmp", "t": "file", "c": "text"}, {"p": ROOT + "/new.gmi.tmp", "t": "file", "c": "crlf"},
+                                    {"p": ROOT + "/a.gmi~", "t": "file", "c": "text"}, {"p": ROOT + "/a.gmi.bak", "t": "file", "c": "text"},
+                                    {"p": ROOT + "/a.gmi.part", "t": "file", "c": "text"}, {"p": ROOT + "/sub", "t": "dir"}]}
+    for tokens in ("none", "one", "several"):
+        for tok in (None, "tok-1", "wrong"):
+            for types in (None, ["text/gemini", "text/plain"]):
+                for mime in (None, "text/plain", "image/png"):
+                    for delete in (True, False):
+                        for n in (0, 3, 64, 65):
+                            for path in ("/a.gmi", "/new.gmi"):
+                                for through in ("handler", "protocol"):
+                                    cfg = {"tokens": tokens, "max_size": 64, "types": types, "delete": delete, "via": "object"}
+                                    content = bytes((i * 13 + 5) & 0xFF for i in range(n))
+                                    yield {"tree": spec, "cfg": cfg, "through": through, "fault": None,
+                                           "req": {"path": path, "size": n, "content": b2s(content), "token": tok, "mime": mime,
+                                                   "labels": ["plain"]}}
+
+
 LANES = [
+    Lane(name="preconditions", run_case=run_case, enumerate=enum_preconditions, budget={"quick": 1, "thorough": 1},
+         shards={"quick": 16, "thorough": 16}, nontrivial=lambda c, v: True, labels=_labels, bucket=_bucket, exhaustive=True,
+         rule="exhaustive precondition matrix (tokens x token x media types x media type x delete x size x target) on a tree "
+              "with look-alike siblings (<target>.tmp, .<target>.tmp, ~, .bak, .part)"),
     Lane(name="uploads", run_case=run_case, strategy=case_st, budget={"quick": 6400, "thorough": 160000},
          shards={"quick": 16, "thorough": 64}, nontrivial=_nontrivial, labels=_labels, bucket=_bucket,
          rule="generated tree x configuration x request x optional fault; snapshot diff oracle"),
